@@ -675,13 +675,15 @@ BROKER_ASSUME = ["sequential regime: one stimulus at a time, broker reaction obs
                  "the retain flag of a live forward to an in-process (Server.Subscribe) callback is not specified (the library hands the publisher's message object to the callback)"]
 
 
-def broker_check(pid, tier, plan, own, rule):
+def broker_check(pid, tier, plan, own, rule, extra=None):
     v = Verdict(pid, tier)
     thorough = tier == "thorough"
     for spec, mode, dq, dt, auth in plan:
         d = dt if thorough else dq
         behs = broker_behaviours(v, spec, d, mode)
         broker_replay(v, pid, behs, "%s(%s,%d)" % (spec, mode, d), auth=auth, own_tags=own)
+    if extra:
+        extra(v)
     v.cov["rule"] = rule + " distinct_nontrivial = behaviours replayed (each is a distinct operation sequence; cover mode: the maximal witnesses of one-witness-per-transition)."
     v.cov["exhaustive"] = True
     v.assumptions += BROKER_ASSUME
@@ -715,7 +717,10 @@ def c08(tier):
     return broker_check("C08", tier, [("RetainSpec", "cover", 3, 4, "mockSuccess"), ("Retain1Spec", "paths", 4, 5, "mockSuccess")], {"C08", "C01"},
                         "configuration retain: retained / non-retained / empty-payload publishes (QoS 0..2) on parent, child and sibling topics, replacement by "
                         "shorter and longer payloads, subscriptions with literal and wildcard filters (also two filters in one request, in-process subscriber); "
-                        "packets after SUBACK and live forwards compared incl. retain flag, QoS, payload bytes.")
+                        "packets after SUBACK and live forwards compared incl. retain flag, QoS, payload bytes. Concurrent part: recorded runs in which one client "
+                        "rewrites a retained topic with self-describing payloads (generation number + filler) while another subscribes in a loop, validated by TLC against "
+                        "OutStreamTrace: every retained packet is one complete generation, not older than what the broker had handled when the SUBSCRIBE was sent.",
+                        extra=lambda v: fanin_validate(v, "C08", tier))
 
 
 @check("C09")
@@ -902,6 +907,77 @@ def c05(tier):
                      "distinct_nontrivial = sequences executed")
     v.cov["exhaustive"] = True
     v.assumptions += ["timing of a teardown relative to foreign deliveries is whatever the scheduler produces (the ring-pointer race is exercised by bursts towards connections that are being cut)"]
+    return v.finish()
+
+
+# ------------------------------------------------------------------------------------------ C17 (and the concurrent parts of C01 / C08)
+
+OUTSTREAM_CFG = """SPECIFICATION Spec
+CONSTANTS
+ Conns = {"s0", "s1", "s2", "p0", "p1", "p2", "p3", "p4", "rw", "rs"}
+ Pubs = {0, 1, 2, 3, 4, 7}
+INVARIANTS Report
+POSTCONDITION Accepted
+"""
+
+
+def fanin_validate(v, pid, tier):
+    thorough = tier == "thorough"
+    runs, msgs = (12, 30) if not thorough else (120, 40)
+    tmp = tempfile.mkdtemp(prefix="verif-fanin-")
+    try:
+        tf = os.path.join(tmp, "trace.ndjson")
+        p = core.run_harness(["fanin", "-seed", str(core.seed()), "-runs", str(runs), "-msgs", str(msgs), "-out", tf], timeout=1800)
+        if p.returncode != 0:
+            raise Infra("fanin recorder failed: %s" % p.stderr[-2000:])
+        res = json.loads(p.stdout.strip().splitlines()[-1])
+        if res.get("counts", {}).get("infra"):
+            raise Infra("fanin recorder: %s" % res.get("notes")[:2])
+        text = open(tf).read()
+    finally:
+        import shutil
+        shutil.rmtree(tmp, ignore_errors=True)
+    # each property validates its own view of the same recording, so that a rejection on the other
+    # property's events does not leave the rest of the trace unexamined
+    own = ("put", "acc", "got", "reset") if pid == "C08" else ("enq", "recv", "bad", "reset")
+    lines = [ln for ln in text.splitlines() if json.loads(ln).get("e") in own]
+    text = "\n".join(lines) + "\n"
+    ok, matched, reports, why = validate_trace(v, "OutStreamTrace", OUTSTREAM_CFG, text, "OutStreamTrace", "outgoing streams")
+    v.cov["parts"]["recorded-concurrent-runs"] = {"runs": runs, "events": len(lines), "matched_prefix": matched,
+                                                  "spec_report": reports[-1]["report"] if reports else None,
+                                                  "stuck_runs": res.get("counts", {}).get("stuck_runs", 0)}
+    v.cov["traces_validated_against_impl"] += runs
+    v.cov["evaluations"] += len(lines)
+    v.cov["distinct_nontrivial"] += len(lines)
+    if res.get("counts", {}).get("stuck_runs"):
+        v.notes.append("recorder: %s" % res.get("notes")[:2])
+    if not ok:
+        ev = lines[matched - 1] if 0 < matched <= len(lines) else "?"
+        kind = json.loads(ev).get("e") if ev != "?" else "?"
+        owner = "C08" if kind in ("got", "put") else "C17"
+        lo = max(0, matched - 8)
+        m = {"what": "recorded run rejected by OutStreamTrace at event %d (%s): %s" % (matched, why, ev),
+             "tag": owner, "replay": {"seed": core.seed(), "events": lines[lo:matched + 1]}}
+        if owner == pid:
+            v.mismatch(m)
+        else:
+            v.notes.append("trace rejected on an observable of %s: %s" % (owner, m["what"][:200]))
+            v.cov["diverged_foreign"] = v.cov.get("diverged_foreign", 0) + 1
+    v.add_samples([json.loads(x) for x in lines[200:204]], 4)
+    return ok
+
+
+@check("C17")
+def c17(tier):
+    v = Verdict("C17", tier)
+    fanin_validate(v, "C17", tier)
+    v.cov["rule"] = ("recorded runs of a real broker with 2-4 raw publishers + Server.Publish, 1-2 shared subscribers, 16 KiB rings, payload sizes that make the outgoing ring wrap "
+                     "mid-packet, QoS 0/1/2, plus retained rewriting and subscription churn; every enq hook event (under the write mutex, before the ring commit) and every packet "
+                     "strictly parsed by a client is one event; TLC validates the log against OutStreamTrace (whole packets: each received packet is the head of the connection's "
+                     "stream; publisher order: consecutive sequence numbers per publisher and subscriber). distinct_nontrivial = events validated")
+    v.cov["exhaustive"] = False
+    v.assumptions += ["interleavings are whatever 16 cores produce: every observed one is checked completely, the set is not controlled",
+                      "the enq hook sits under the connection's write mutex immediately before the ring commit (a hook after the commit can be overtaken by the reader)"]
     return v.finish()
 
 
